@@ -20,6 +20,10 @@ import (
 //	ib import <dfile-json>   the document is built at AST level and handed to VerifImportAST; the
 //	                         bus is read through the public getters and rendered
 //
+// The export direction and the round trip (`ib export`, `ib rt`, property C11) are in
+// s_impbus_exp.go; every case interleaves them: the bus of every accepted import is exported
+// (model and code), every real export is imported by the model.
+//
 // JSON and rendering: see lean/Acme/Driver/ImportBus.lean.  A float travels as the exact rational
 // "num/den" of the binary64 number.  Every line is stateless.
 //
@@ -34,7 +38,7 @@ type impbusStream struct{ baseStream }
 func init() { register(impbusStream{}) }
 
 func (impbusStream) Name() string    { return "impbus" }
-func (impbusStream) Props() []string { return []string{"C10"} }
+func (impbusStream) Props() []string { return []string{"C10", "C11"} }
 func (impbusStream) Parallel() bool  { return true }
 
 // ---- JSON ---------------------------------------------------------------------------------
@@ -294,13 +298,26 @@ func (impbusStream) NewExec() Exec        { return &impbusExec{} }
 func (e *impbusExec) Findings() []Finding { return e.fs }
 func (e *impbusExec) find(sig, detail string) {
 	if len(e.fs) < 8 {
-		e.fs = append(e.fs, Finding{Prop: "C10", Sig: sig, Detail: detail})
+		prop := "C10"
+		if strings.HasPrefix(sig, "c11-") {
+			prop = "C11"
+		}
+		e.fs = append(e.fs, Finding{Prop: prop, Sig: sig, Detail: detail})
 	}
 }
 
 func (e *impbusExec) Do(line string) string {
 	f := fields(line)
-	if len(f) < 3 || f[0] != "ib" || f[1] != "import" {
+	if len(f) < 3 || f[0] != "ib" {
+		return "bad-op"
+	}
+	switch f[1] {
+	case "export":
+		return e.doExport(f[2], false)
+	case "rt":
+		return e.doExport(f[2], true)
+	case "import":
+	default:
 		return "bad-op"
 	}
 	j := &ibFile{}
@@ -921,6 +938,20 @@ func (impbusStream) Exhaustive(tier string) [][]string {
 			}
 		}
 	}
+	// export + import of a bus with more than 1024 nodes: refused (the id of the placeholder is
+	// taken by the node in position 1024) unless that node is named like the placeholder
+	for variant := 0; variant < 2; variant++ {
+		jb := &ibJBus{Nodes: []ibJNode{}, Types: []ibJType{}, Units: []string{}, Enums: []ibJEnum{}, Msgs: []ibJMMsg{}}
+		for i := 0; i < 1026; i++ {
+			n := ibJNode{N: sprintf("X%d", i), ID: uint32(2 * i)}
+			if variant == 1 && i == 1024 {
+				n.N = dbc.DummyNode
+			}
+			jb.Nodes = append(jb.Nodes, n)
+		}
+		jb.Msgs = append(jb.Msgs, ibJMMsg{ID: 1, N: "msgA", Z: 8, Tx: "X1025", Rx: []string{"X0"}, Sigs: []ibJMSig{}})
+		res = append(res, []string{"ib rt " + encJSON(jb)})
+	}
 	// the order of the checks: documents with two defects
 	one := func(j *ibFile) { res = append(res, []string{"ib import " + encJSON(j)}) }
 	twoDup := []ibVal{{1, "a"}, {2, "a"}, {1, "b"}}
@@ -960,14 +991,56 @@ func (impbusStream) Gen(r *rand.Rand, tier string, idx int) []string {
 	}
 	var lines []string
 	for i := 0; i < n; i++ {
-		lines = append(lines, "ib import "+encJSON(ibGenFile(r, tier)))
+		if i%3 == 2 {
+			// a generated bus: export, round trip, the importer model on the real export
+			lines = append(lines, ibExportLines(ibGenBus(r, tier))...)
+			continue
+		}
+		file := ibGenFile(r, tier)
+		lines = append(lines, "ib import "+encJSON(file))
+		// the bus of an accepted real import goes through the exporter (model and code) as well
+		if bus, err := acmelib.VerifImportAST(ibFileOf(file)); err == nil && len(file.Nodes) < 100 {
+			lines = append(lines, ibExportLines(ibBusOf(bus))...)
+		}
 	}
 	return lines
 }
 
+// the annotation ` ##…` of an answer is for the histogram only
+func (impbusStream) Same(a, b string) bool {
+	cut := func(s string) string {
+		if i := strings.Index(s, " ##"); i >= 0 {
+			return s[:i]
+		}
+		return s
+	}
+	return cut(a) == cut(b)
+}
+
 func (impbusStream) Tag(lines, outs []string) (bool, []string) {
 	var tags []string
-	for _, o := range outs {
+	for li, o := range outs {
+		if f := fields(lines[li]); len(f) > 1 && f[1] != "import" {
+			// export / round trip
+			head := o
+			if i := strings.Index(o, " "); i >= 0 {
+				head = o[:i]
+			}
+			tags = append(tags, f[1]+":"+eiFirst(head, 30))
+			if i := strings.Index(o, " ##"); i >= 0 {
+				for _, t := range strings.Split(o[i+3:], ",") {
+					tags = append(tags, f[1]+":"+t)
+				}
+			}
+			if f[1] == "export" && strings.HasPrefix(o, "ok ") {
+				for _, w := range []string{`"vt":[{`, `"cm":[{`, `"r":["Vector__XXX"]`, `"sigs":[]`} {
+					if strings.Contains(o, w) {
+						tags = append(tags, "export:has:"+w)
+					}
+				}
+			}
+			continue
+		}
 		switch {
 		case strings.HasPrefix(o, "ok "):
 			tags = append(tags, "ok")
